@@ -426,6 +426,8 @@ impl Receiver {
                 // Try to receive next chunk.
                 _ => match self.rx.recv().await {
                     Some(PortReceiveMsg::Data(data)) => {
+                        #[cfg(remoc_verif)]
+                        crate::verif::emit("deq_chunk", &[("local", self.local_port as u64), ("remote", self.remote_port as u64), ("len", data.buf.len() as u64), ("first", data.first as u64), ("last", data.last as u64)]);
                         self.credits.start_return(data.credit, self.remote_port, &self.tx);
 
                         match (&self.receiving, data.first) {
@@ -485,6 +487,8 @@ impl Receiver {
             match self.rx.recv().await {
                 // Data message.
                 Some(PortReceiveMsg::Data(data)) => {
+                    #[cfg(remoc_verif)]
+                    crate::verif::emit("deq_any", &[("local", self.local_port as u64), ("remote", self.remote_port as u64), ("len", data.buf.len() as u64), ("first", data.first as u64), ("last", data.last as u64)]);
                     self.credits.start_return(data.credit, self.remote_port, &self.tx);
 
                     if data.first {
